@@ -33,6 +33,7 @@ class Types(object):
         self.global_types = {}  # (module, name) -> set
         self.deref_types = {}  # (fn key, param) -> class key : param is a weakref to that class
         self.thread_targets = []  # (owner ClassInfo, target FunctionInfo, Thread call node, fn)
+        self.thread_factories = set()  # keys of generic helper functions that build the Thread object
         self.tainted_fields = set()  # field names holding user-supplied callables / objects
         self.tainted_containers = set()  # field names of containers holding user callables
         self._fimports = {}
@@ -308,6 +309,61 @@ class Types(object):
                         return m, m.is_classmethod, None
         return None, False, None
 
+    def _factory_params(self, fac):
+        """(target parameter, args parameter) if fac builds Thread(target=<its parameter>, args=<its parameter>)"""
+        for n in ast.walk(fac.node):
+            if isinstance(n, ast.Call) and (_dotted(n.func) or "").split(".")[-1] == "Thread":
+                kw = dict((k.arg, k.value) for k in n.keywords if k.arg)
+                t, a = kw.get("target"), kw.get("args")
+                if isinstance(t, ast.Name) and t.id in fac.params:
+                    return (t.id, a.id if isinstance(a, ast.Name) and a.id in fac.params else None)
+        return None
+
+    def _thread_site(self, fi, call, target, args):
+        changed = False
+        tfi = None
+        if isinstance(target, ast.Name):
+            rr = self._resolve_name(fi, target.id)
+            if rr[0] == "func":
+                tfi = rr[1]
+        elif isinstance(target, ast.Attribute):
+            for t in self.static_type(target.value, fi):
+                c = self.cls_of(t)
+                if c:
+                    o, mm = c.lookup(target.attr)
+                    if mm is not None:
+                        tfi = mm
+        owner = fi.owner
+        if owner is None and fi.parent is None:
+            # a thread factory function: the owner is the executor it is handed
+            for pn in fi.params:
+                for t in sorted(self.param_types.get((fi.key, pn), ())):
+                    c = self.cls_of(t)
+                    if c is not None and c.lookup("submit")[1] is not None and c.lookup("shutdown")[1] is not None:
+                        owner = c
+        if tfi is not None and owner is not None:
+            rec = (owner, tfi, call, fi)
+            if not any(x[2] is call for x in self.thread_targets):
+                self.thread_targets.append(rec)
+                changed = True
+            if isinstance(args, ast.Tuple):
+                params = list(tfi.params)
+                if tfi.is_classmethod or (tfi.owner is not None and not tfi.is_staticmethod):
+                    params = params[1:]
+                loc = self._locals_cache.setdefault(fi.key, self._local_assigns(fi))
+                for p, a in zip(params, args.elts):
+                    # is `a` a weakref.ref(self, ...)?
+                    exprs = [a]
+                    if isinstance(a, ast.Name) and a.id in loc:
+                        exprs = loc[a.id]
+                    for e in exprs:
+                        if isinstance(e, ast.Call) and (_dotted(e.func) or "").endswith("ref") and e.args:
+                            for t in self.static_type(e.args[0], fi):
+                                if self.deref_types.get((tfi.key, p)) != t:
+                                    self.deref_types[(tfi.key, p)] = t
+                                    changed = True
+        return changed
+
     def _infer_call(self, fi, call):
         changed = False
         # element types of container fields:  <obj>.<F>.append(x) / add / appendleft / insert(i, x)
@@ -382,47 +438,18 @@ class Types(object):
                         target = kw.value
                     elif kw.arg == "args":
                         args = kw.value
-                tfi = None
-                if isinstance(target, ast.Name):
-                    rr = self._resolve_name(fi, target.id)
-                    if rr[0] == "func":
-                        tfi = rr[1]
-                elif isinstance(target, ast.Attribute):
-                    for t in self.static_type(target.value, fi):
-                        c = self.cls_of(t)
-                        if c:
-                            o, mm = c.lookup(target.attr)
-                            if mm is not None:
-                                tfi = mm
-                owner = fi.owner
-                if owner is None and fi.parent is None:
-                    # a thread factory function: the owner is the executor it is handed
-                    for pn in fi.params:
-                        for t in sorted(self.param_types.get((fi.key, pn), ())):
-                            c = self.cls_of(t)
-                            if c is not None and c.lookup("submit")[1] is not None and c.lookup("shutdown")[1] is not None:
-                                owner = c
-                if tfi is not None and owner is not None:
-                    rec = (owner, tfi, call, fi)
-                    if not any(x[2] is call for x in self.thread_targets):
-                        self.thread_targets.append(rec)
-                        changed = True
-                    if isinstance(args, ast.Tuple):
-                        params = list(tfi.params)
-                        if tfi.is_classmethod or (tfi.owner is not None and not tfi.is_staticmethod):
-                            params = params[1:]
-                        loc = self._locals_cache.setdefault(fi.key, self._local_assigns(fi))
-                        for p, a in zip(params, args.elts):
-                            # is `a` a weakref.ref(self, ...)?
-                            exprs = [a]
-                            if isinstance(a, ast.Name) and a.id in loc:
-                                exprs = loc[a.id]
-                            for e in exprs:
-                                if isinstance(e, ast.Call) and (_dotted(e.func) or "").endswith("ref") and e.args:
-                                    for t in self.static_type(e.args[0], fi):
-                                        if self.deref_types.get((tfi.key, p)) != t:
-                                            self.deref_types[(tfi.key, p)] = t
-                                            changed = True
+                if not (isinstance(target, ast.Name) and target.id in fi.params and fi.owner is None):
+                    changed = self._thread_site(fi, call, target, args) or changed
+        else:
+            # a call of a generic thread factory  def f(name, target, args): return Thread(target=target, args=args)
+            fac, _skip, _ci = self._callee_of(fi, call)
+            if fac is not None and fac.owner is None and fac.parent is None:
+                fp = self._factory_params(fac)
+                if fp is not None:
+                    bound = dict(self._bind_call(fac, call, False))
+                    if fp[0] in bound:
+                        self.thread_factories.add(fac.key)
+                        changed = self._thread_site(fi, call, bound.get(fp[0]), bound.get(fp[1])) or changed
         return changed
 
     # -------------------------------------------------------------------- taint
